@@ -117,39 +117,49 @@ fn c03(rng: &mut Rng, out: &mut Out) {
             Err(e) => report(out, "C03 conformable matrix product panicked", format!("{}x{} * {}x{}", r, k, k, c), e, "a product".into()),
         }
     } } }
-    // editing sequences against the model
-    for it in 0..300 {
+    // editing sequences against the model; the same edits are applied to an f64 twin (integer-valued data are exact in f64)
+    // so that norms and equality are taken on the EDITED matrices, not on freshly built ones
+    for _it in 0..300 {
         let (r, c) = (1 + rng.below(4) as usize, 1 + rng.below(4) as usize);
-        let mut model = rand_m(rng, r, c);
+        let mut model: M = (0..r).map(|_| (0..c).map(|_| Q::int(rng.int(-9, 9))).collect()).collect();
         let mut m = to_matrix(&model);
+        let mut mf = { let mut t = Mat64::new(r, c, 0.0); for i in 0..r { for j in 0..c { t[(i, j)] = model[i][j].to_f64(); } } t };
         let mut hist = vec![format!("start {}", mq(&model))];
         for _ in 0..4 {
             let (rr, cc) = (model.len(), if model.is_empty() { 0 } else { model[0].len() });
             if rr == 0 || cc == 0 { break; }
             match rng.below(9) {
-                0 => { m.transpose_in_place(); model = (0..cc).map(|j| (0..rr).map(|i| model[i][j]).collect()).collect(); hist.push("transpose".into()); }
-                1 => { let k = rng.below(rr as u64) as usize; m.delete_row(k); model.remove(k); hist.push(format!("delete_row({})", k)); }
-                2 => { let off = rng.int(-3, 3); let v = rng.q(); m.fill_band(off as isize, v);
+                0 => { m.transpose_in_place(); mf.transpose_in_place(); model = (0..cc).map(|j| (0..rr).map(|i| model[i][j]).collect()).collect(); hist.push("transpose".into()); }
+                1 => { let k = rng.below(rr as u64) as usize; m.delete_row(k); mf.delete_row(k); model.remove(k); hist.push(format!("delete_row({})", k)); }
+                2 => { let off = rng.int(-3, 3); let v = Q::int(rng.int(-9, 9)); m.fill_band(off as isize, v); mf.fill_band(off as isize, v.to_f64());
                        for i in 0..rr { let j = i as i64 + off; if j >= 0 && (j as usize) < cc { model[i][j as usize] = v; } } hist.push(format!("fill_band({}, {:?})", off, v)); }
-                3 => { let k = rng.below(cc as u64) as usize; let v: Vec<Q> = (0..rr).map(|_| rng.q()).collect(); m.set_col(k, Vector::create(v.clone()));
+                3 => { let k = rng.below(cc as u64) as usize; let v: Vec<Q> = (0..rr).map(|_| Q::int(rng.int(-9, 9))).collect(); m.set_col(k, Vector::create(v.clone()));
+                       mf.set_col(k, Vector::create(v.iter().map(|q| q.to_f64()).collect()));
                        for i in 0..rr { model[i][k] = v[i]; } hist.push(format!("set_col({}, {})", k, qs(&v))); }
-                4 => { let k = rng.below(rr as u64) as usize; let v: Vec<Q> = (0..cc).map(|_| rng.q()).collect(); m.set_row(k, Vector::create(v.clone()));
+                4 => { let k = rng.below(rr as u64) as usize; let v: Vec<Q> = (0..cc).map(|_| Q::int(rng.int(-9, 9))).collect(); m.set_row(k, Vector::create(v.clone()));
+                       mf.set_row(k, Vector::create(v.iter().map(|q| q.to_f64()).collect()));
                        model[k] = v.clone(); hist.push(format!("set_row({}, {})", k, qs(&v))); }
-                5 => { let (a, b) = (rng.below(rr as u64) as usize, rng.below(rr as u64) as usize); m.swap_rows(a, b); model.swap(a, b); hist.push(format!("swap_rows({}, {})", a, b)); }
-                6 => { let (nr, nc) = (1 + rng.below(4) as usize, 1 + rng.below(4) as usize); m.resize(nr, nc);
+                5 => { let (a, b) = (rng.below(rr as u64) as usize, rng.below(rr as u64) as usize); m.swap_rows(a, b); mf.swap_rows(a, b); model.swap(a, b); hist.push(format!("swap_rows({}, {})", a, b)); }
+                6 => { let (nr, nc) = (1 + rng.below(4) as usize, 1 + rng.below(4) as usize); m.resize(nr, nc); mf.resize(nr, nc);
                        model = (0..nr).map(|i| (0..nc).map(|j| if i < rr && j < cc { model[i][j] } else { Q::int(0) }).collect()).collect(); hist.push(format!("resize({}, {})", nr, nc)); }
-                7 => { let (l, d, u) = (rng.q(), rng.q(), rng.q()); m.fill_tridiag(l, d, u);
+                7 => { let (l, d, u) = (Q::int(rng.int(-9, 9)), Q::int(rng.int(-9, 9)), Q::int(rng.int(-9, 9))); m.fill_tridiag(l, d, u); mf.fill_tridiag(l.to_f64(), d.to_f64(), u.to_f64());
                        for i in 0..rr { for j in 0..cc { if j + 1 == i { model[i][j] = l } else if i == j { model[i][j] = d } else if j == i + 1 { model[i][j] = u } } } hist.push("fill_tridiag".into()); }
-                _ => { let v = rng.q(); m.fill_diag(v); for i in 0..rr.min(cc) { model[i][i] = v; } hist.push(format!("fill_diag({:?})", v)); }
+                _ => { let v = Q::int(rng.int(-9, 9)); m.fill_diag(v); mf.fill_diag(v.to_f64()); for i in 0..rr.min(cc) { model[i][i] = v; } hist.push(format!("fill_diag({:?})", v)); }
             }
             let ok = m.rows() == model.len() && (model.is_empty() || m.cols() == model[0].len()) && from_matrix(&m) == model;
             if !ok { report(out, "C03 matrix equals the reference model after a sequence of edits", hist.join("; "), mq(&from_matrix(&m)), mq(&model)); break; }
-            // norms on the edited matrix (integer data: exact in f64)
-            let mf = { let mut t = Mat64::new(m.rows(), m.cols(), 0.0); for i in 0..m.rows() { for j in 0..m.cols() { t[(i, j)] = m[(i, j)].to_f64(); } } t };
+            if !model.is_empty() && !(m == to_matrix(&model)) {
+                report(out, "C03 an edited matrix compares equal to the same matrix built directly", hist.join("; "), "m != to_matrix(model)".into(), "equal".into()); break; }
+            let okf = mf.rows() == model.len() && (model.is_empty() || mf.cols() == model[0].len())
+                && (0..mf.rows()).all(|i| (0..mf.cols()).all(|j| mf[(i, j)] == model[i][j].to_f64()));
+            if !okf { report(out, "C03 f64 matrix equals the reference model after a sequence of edits", hist.join("; "), format!("{}x{}", mf.rows(), mf.cols()), mq(&model)); break; }
+            // norms of the edited matrix (integer data: exact in f64)
             let mx = model.iter().flatten().fold(0.0f64, |s, x| s.max(x.to_f64().abs()));
             if (mf.norm_max() - mx).abs() > 1e-12 { report(out, "C03 norm_max of an edited matrix", hist.join("; "), format!("{}", mf.norm_max()), format!("{}", mx)); break; }
             let fr = model.iter().flatten().fold(0.0f64, |s, x| s + x.to_f64() * x.to_f64()).sqrt();
             if (mf.norm_frob() - fr).abs() > 1e-9 * (1.0 + fr) { report(out, "C03 norm_frob of an edited matrix", hist.join("; "), format!("{}", mf.norm_frob()), format!("{}", fr)); break; }
+            let n1 = (0..(if model.is_empty() { 0 } else { model[0].len() })).map(|j| model.iter().fold(0.0f64, |s, row| s + row[j].to_f64().abs())).fold(0.0f64, f64::max);
+            if !model.is_empty() && (mf.norm_1() - n1).abs() > 1e-9 * (1.0 + n1) { report(out, "C03 norm_1 of an edited matrix", hist.join("; "), format!("{}", mf.norm_1()), format!("{}", n1)); break; }
         }
     }
 }
